@@ -715,8 +715,23 @@ C19Admission(pre, e) ==
          Sub("v1_reward_spl_only", e.slots.reward_mint.id \in DOMAIN pre.mint /\ pre.mint[e.slots.reward_mint.id].prog = "spl")
     [] OTHER -> TRUE
 
+(* C20: SDK quote vs program.  e.sdk is the result of orca_whirlpools_core::compute_swap on facades
+   built from the pre-state account bytes, for the same inner swap call the program made (amount,
+   limit, mode, direction, timestamp as recorded by the swap hook).                               *)
+C20Quote(e) ==
+  (e.sdk.present /\ Len(e.swaps) = 1) =>
+    LET sw == e.swaps[1] IN
+    IF sw.done
+    THEN /\ Sub("sdk_succeeds_where_program_does", e.sdk.ok)
+         /\ Sub("same_amounts", e.sdk.a \doteq sw.result.amount_a /\ e.sdk.b \doteq sw.result.amount_b)
+         /\ Sub("same_total_fee", e.sdk.fee \doteq SumFee(sw))
+    ELSE \* the program refused the swap computation: the SDK may still produce a number only for a partial
+         \* exact-out fill (program: PartialFillError 6057) or for running off the supplied arrays (6038 / 6023)
+         Sub("sdk_number_only_for_allowed_reasons", e.sdk.ok => (e.err \doteq 6057 \/ e.err \doteq 6038 \/ e.err \doteq 6023))
+
 (* the per-event transition *)
 IxOK(pre, e, post) ==
+  /\ Chk("C20", "sdk_quote", C20Quote(e))
   /\ Chk("C19", "params_in_bounds", C19State(post))
   /\ Chk("C19", "mint_admission", C19Admission(pre, e))
   /\ Chk("C18", "life_cycle", C18Event(pre, e, post))
@@ -758,6 +773,7 @@ IxOK(pre, e, post) ==
      ELSE TRUE
 
 IxFailed(pre, e) ==
+  /\ Chk("C20", "sdk_quote_on_failure", C20Quote(e))
   /\ Chk("C10", "packaging_failed", C10Pack(pre, e))
   /\ Chk("C12", "anchor_equals_pinocchio_on_failure", DualOK(e))
   /\ Chk("C12", "entrypoint_routing_on_failure", e.routing \in {"none", "same"})
